@@ -54,7 +54,8 @@ def listener_builders(ctx):
         an = ctx.an(b)
         ups = builder_updates(an)
         for f, e in ups.items():
-            out[f] = (b, e)
+            # a setting grouped into a nested private struct (`self.settings.auth_secret = v`) is still that setting
+            out[f.split(".")[-1]] = (b, e)
     return out
 
 
